@@ -981,7 +981,7 @@ fn wrong_pec(ev: &Event) -> bool {
 }
 
 /// C02 claims every aspect of a node once a wrong-PEC input is part of its history.
-fn c02_filter(d: &Diff, h: &[Event]) -> bool {
+pub fn c02_filter(d: &Diff, h: &[Event]) -> bool {
     d.aspect != Aspect::Panic && h.iter().any(wrong_pec)
 }
 
